@@ -111,6 +111,10 @@ class NameSanitizer:
         "base64",
         "copy",
         "re",
+        # Names every generated dataclass module imports and uses in its field definitions: a field called
+        # "date" or "field" would shadow them for the fields declared after it
+        "date",
+        "field",
         # Other problematic names
         "data",
         "model",
